@@ -13,6 +13,7 @@ import Anko.Gen.ToXFlow
 import Anko.Props.ToXFlowTable
 import Anko.Props.Tie.ToXFlow
 import Anko.Props.Tie.ProvFlow
+import Anko.Props.Tie.Inventory
 
 namespace Anko.C05
 open Anko
@@ -435,5 +436,16 @@ this property then searches for a failing input - so a change that breaks this p
 property is not overlooked. -/
 /-- unary operators, dereference, address-of, unalias, containerOperand, isNil -/
 theorem source_tie_ProvFlow : Gen.ProvFlow.leaves = Tables.provFlow := Tie.provFlow
+
+
+/-! ### Declaration inventory
+
+Nothing was added to the packages this property is anchored in: their top-level declarations (functions, methods, variables, constants, types with
+the fields of struct types), regenerated from /repo on this run, are the audited ones (Props/Tie/Inventory). A helper, a package-level table or a
+file added there - code no flow table can pin - breaks the tie by name and makes this property's check search for a failing input. -/
+/-- vm/ -/
+theorem declarations_of_Vm_are_the_audited_ones : Tie.ofPkg "vm" Gen.Inventory.decls = Tie.ofPkg "vm" Tables.inventory := Tie.inventoryVm
+/-- ast/ -/
+theorem declarations_of_Ast_are_the_audited_ones : Tie.ofPkg "ast" Gen.Inventory.decls = Tie.ofPkg "ast" Tables.inventory := Tie.inventoryAst
 
 end Anko.C05
